@@ -91,3 +91,77 @@ for _kind, _lens_q, _lens_t in (("text", (1, 2, 3), (4,)), ("attr", (1, 2, 3), (
             bounds=f"{_kind} length exactly {_n}; compact and pretty serialisation",
             weight={1: 5, 2: 15, 3: 80, 4: 600}[_n],
         )(_fn)
+
+
+# ---- d: NAME-GUARD (E2-R) ---------------------------------------------------------------
+from vf.registry import ob_e2  # noqa: E402
+
+
+def name_guard_run(tier, replay_call=None):
+    import z3
+
+    from pyxform.parsing import expression as ex
+    from spec import xmlnames as X
+    from vf import e2_regex as R
+
+    if tier == "replay":
+        w = replay_call["witness"]
+        bad = bool(ex.is_xml_tag(w)) and not X.is_qname(w[:-1] if w.endswith("\n") else w)
+        return {"verdict": "counterexample" if bad else "confirmed", "replayed": bad, "counterexample": replay_call}
+    t0 = __import__("time").time()
+    a = R.translate(ex.RE_ONLY_NCNAME)
+    checked, disagreements = R.validate_translation(ex.RE_ONLY_NCNAME, a)
+    if disagreements:
+        return {"verdict": "harness_error", "detail": f"regex translator disagrees with Python re: {disagreements[:3]}"}
+    target = z3.Concat(X.z3_qname(), z3.Union(R.EPS, R.ch(10)))
+    verdict, w, dt = R.check_subset(a, target, timeout_ms=120000)
+    out = {
+        "queries": 1,
+        "solver_s": round(dt, 3),
+        "validated": checked,
+        "samples": R.sample(a, 4),
+        "extra": {"pattern_sha": __import__("hashlib").sha1(ex.RE_ONLY_NCNAME.pattern.encode()).hexdigest()[:12], "encoding": "re._parser tree -> z3 Re; code points above U+2FFFF clamped (z3 character sort)"},
+    }
+    # second query: the guard is not vacuous (accepts every ASCII XML name)
+    v2, w2, dt2 = R.check_subset(X.z3_qname(), a, timeout_ms=120000)
+    out["queries"] += 1
+    out["solver_s"] = round(dt + dt2, 3)
+    if verdict == "unsat" and v2 == "unsat":
+        out["verdict"] = "confirmed"
+    elif verdict == "sat":
+        real = bool(ex.is_xml_tag(w)) and not X.is_qname(w[:-1] if w.endswith("\n") else w)
+        out.update(verdict="counterexample", counterexample={"witness": w}, replayed=real, detail=f"is_xml_tag accepts {w!r} which is not an XML QName", replay_result=_convert_with_name(w))
+    elif v2 == "sat":
+        real = X.is_qname(w2) and not ex.is_xml_tag(w2)
+        out.update(verdict="counterexample", counterexample={"witness": w2, "direction": "rejects-valid"}, replayed=real, detail=f"is_xml_tag rejects the valid XML name {w2!r}")
+    else:
+        out["verdict"] = "unknown"
+    return out
+
+
+def _convert_with_name(w):
+    try:
+        from pyxform.xls2xform import convert
+
+        r = convert({"survey": [{"type": "text", "name": w, "label": "x"}]})
+        import xml.dom.minidom as md
+
+        try:
+            md.parseString(r.xform)
+            return {"converted": True, "wellformed": True}
+        except Exception as e:  # noqa: BLE001
+            return {"converted": True, "wellformed": False, "parse_error": str(e)[:200]}
+    except Exception as e:  # noqa: BLE001
+        return {"converted": False, "error": f"{type(e).__name__}: {str(e)[:200]}"}
+
+
+ob_e2(
+    "C01",
+    "d.name-guard",
+    name_guard_run,
+    timeout=300,
+    kernel=("pyxform.parsing.expression:get_lexer_rules", "pyxform.parsing.expression:is_xml_tag"),
+    symbolic="one z3 String over all Unicode strings of any length",
+    bounds="unbounded string length; code points above U+2FFFF outside z3's character sort; a single trailing newline admitted by Python '$' is XML white space in tag position",
+    weight=5,
+)
